@@ -128,6 +128,17 @@ func (e *EmptyDataProvider) GetUnderlying() any {
 	return e.Underlying
 }
 
+// mapAs returns x as a map[string]T. Named map types (type M map[string]T) are converted;
+// maps whose key or element type is itself a named type are not supported.
+func mapAs[T any](x reflect.Value) (map[string]T, bool) {
+	t := reflect.TypeOf(map[string]T(nil))
+	if !x.CanConvert(t) {
+		return nil, false
+	}
+	m, ok := x.Convert(t).Interface().(map[string]T)
+	return m, ok
+}
+
 func TryNewAnyDataProvider(val any) (DataProvider, error) {
 	dp, ok := val.(DataProvider)
 	if ok {
@@ -149,18 +160,27 @@ func TryNewAnyDataProvider(val any) (DataProvider, error) {
 
 		switch valTyp.Kind() { // TODO: add more types
 		case reflect.String:
-			return NewSafeMapDataProvider(x.Interface().(map[string]string)), nil
+			if m, ok := mapAs[string](x); ok {
+				return NewSafeMapDataProvider(m), nil
+			}
 		case reflect.Int:
-			return NewSafeMapDataProvider(x.Interface().(map[string]int)), nil
+			if m, ok := mapAs[int](x); ok {
+				return NewSafeMapDataProvider(m), nil
+			}
 		case reflect.Float64:
-			return NewSafeMapDataProvider(x.Interface().(map[string]float64)), nil
+			if m, ok := mapAs[float64](x); ok {
+				return NewSafeMapDataProvider(m), nil
+			}
 		case reflect.Bool:
-			return NewSafeMapDataProvider(x.Interface().(map[string]bool)), nil
+			if m, ok := mapAs[bool](x); ok {
+				return NewSafeMapDataProvider(m), nil
+			}
 		case reflect.Interface:
-			return NewSafeMapDataProvider(x.Interface().(map[string]any)), nil
-		default:
-			return &EmptyDataProvider{Underlying: val}, fmt.Errorf("could not convert map[string]%s to a data provider", valTyp.String())
+			if m, ok := mapAs[any](x); ok {
+				return NewSafeMapDataProvider(m), nil
+			}
 		}
+		return &EmptyDataProvider{Underlying: val}, fmt.Errorf("could not convert %s to a data provider", x.Type().String())
 
 	case reflect.Struct:
 		return &StructDataProvider{value: x, tag: nil}, nil
